@@ -164,7 +164,7 @@ def analyse_engine(ctx: Ctx, ci, f, cfg, in_loop):
 
                 outside_r = [_Subst({k: v for k, v in defs_all.items() if k != p.id}, 3).visit(copy.deepcopy(d)) for d in outside]
                 ok_entry = bool(outside) and all(any(is_self_attr(x, "current_population", selfn) for x in ast.walk(d)) for d in outside_r)
-                definite = bool(outside) and any(any(is_self_attr(x, None, selfn) and x.attr in ("_history", "all_individuals", "_sprout_seed", "best_individual") for x in ast.walk(d)) for d in outside_r)
+                definite = bool(outside) and any(any(is_self_attr(x, None, selfn) and x.attr in ("_history", "history", "all_individuals", "_sprout_seed", "best_individual") for x in ast.walk(d)) for d in outside_r)
                 obs.append(ctx.ob("R11.2", f, call, status=OK if ok_entry else VIOLATION if definite else INCONCLUSIVE, detail=f"loop-entry value of `{p.id}` derives from self.current_population" if ok_entry else f"{ci.name}: the first generation of a metaepoch is not bred from the deme's current population (`{p.id}` = {[norm(d) for d in outside]})", construct=label + ":entry"))
             elif _free_locals(p, selfn) & {t for b in body for t in _targets(b.ast)}:
                 # an expression over locals, some of which are assigned in the loop: the ones assigned there must be loop-carried
